@@ -69,6 +69,11 @@ CHECKS = {
          "TLC proves ComponentSumInvariant on the abstract transfer model (and finds the violation when unbonded atoms are skipped); the charges after every real PEOE cycle (recorded with a local trace function) and the final charges must carry, per connected component, exactly the share of the formal charge; radii must equal the RADII-table lookup; renamed and permuted copies must give the same charges per symmetry class; in generated complexes every ligand atom must be written once with the ligand's parameters and no other hetero atom may change relative to the run without --ligand.",
          "Stored molecules plus four variants each (quick: the small ones and 1HPX); six complex layouts on one peptide with the acetate ligand; conservation is judged against pdb2pqr's own formal_charge; MOL2 writer and PQR parsing are harness code.",
          "DESIGN.md 6/C16", ["Peoe", "PeoeTrace"]),
+ "C10": ("model_checking",
+         "TLA+ spec CifColumns (string-level assembly of fixed-column records from atom_site items + pdb.ATOM slicing, two missing-value conventions): TLC over the product of value shapes; every shape written as real mmCIF and PDB files and read by the real readers; TLC trace validation (CifColumnsTrace); whole structures run through the pipeline in both encodings",
+         "TLC checks SameAtomAsPdb on the model of the current assembly code for every shape (record type, id width, 1-4 character names, alt id, 1-3 character comp ids, negative / four-digit residue numbers, insertion codes, coordinate widths up to 8, formal charge) under both conventions of the parsing dependency; each shape is realised as files, the record produced by cif.read_cif must equal the model's and the PDB reader's; eight generated structures (alt locs, insertion codes, negative numbers, wide coordinates, hydrogens, two models numbered 8/9 and 9/10) must give identical PQR atoms from both encodings.",
+         "Only mmcif-pdbx 2.1.0 is installed; the verbatim-marker convention is realised by a shim after pdbx.load; label_* and auth_* names are equal in generated files; writers and projections are harness code.",
+         "DESIGN.md 6/C10", ["CifColumns", "CifColumnsTrace"]),
 }
 
 NOT_YET = "check not built yet (build round in progress); planned per DESIGN.md section 6"
